@@ -332,16 +332,17 @@ class SelectDouble:
         return [], [], []
 
     def poll(self):
-        return _PollObject(self, self.POLLIN)
+        return _PollObject(self, self.POLLIN, KeyError)
 
     def epoll(self, *a, **k):
-        return _PollObject(self, self.EPOLLIN)
+        return _PollObject(self, self.EPOLLIN, lambda fd: FileNotFoundError(2, 'No such file or directory'))
 
 
 class _PollObject:
-    def __init__(self, mod, flag_in):
+    def __init__(self, mod, flag_in, missing):
         self.mod = mod
         self.flag_in = flag_in
+        self.missing = missing      # what unregister() of an unknown descriptor raises (poll: KeyError, epoll: ENOENT)
         self.table = {}
 
     def register(self, fd, mask):
@@ -352,7 +353,7 @@ class _PollObject:
 
     def unregister(self, fd):
         if fd not in self.table:
-            raise KeyError(fd)
+            raise self.missing(fd)
         del self.table[fd]
 
     def poll(self, timeout=None):
@@ -500,7 +501,7 @@ def canaries():
             ["handling = self._currently_handling\n        with self._lock:\n            # Modifications", "            self._queue.append(event, channel, priority)"]), ['lost-wakeup']),
         ('no-reduce-on-foreign-fire', 'fallback', lambda: mutate(M.Manager, '_fire', 'handling.reduce_time_left(0)', 'pass'), ['lost-wakeup']),
         ('poller-resume-does-not-write', 'poller-Select', lambda: mutate(PL.BasePoller, 'resume', 'os.write(self._ctrl_send, b\'\\0\')', 'pass'), ['lost-wakeup']),
-        ('epoll-ignores-ctrl-pipe', 'poller-EPoll', lambda: mutate(PL.EPoll, '__init__', 'self._updateRegistration(self._ctrl_recv)', 'pass'), ['lost-wakeup']),
+        ('epoll-ignores-ctrl-pipe', 'poller-EPoll', lambda: mutate(PL.EPoll, '__init__', 'self._updateRegistration(self._ctrl_recv)', 'pass'), None),
         ('batch-moved-with-extend-clear', 'fallback', lambda: mutate(
             M._EventQueue, 'dispatchEvents',
             "self._flush_batch = count = len(self._queue)\n        while count:\n            count -= 1\n            heappush(self._priority_queue, self._queue.popleft())",
